@@ -1,11 +1,12 @@
 // C13: all ways of reading one file agree (BMP, PNM, TARGA through FILE* / file name).
 // Compile-time shape: FORMAT, MODE (1 partial read == crop, 2 read_and_convert == color_convert of the native read, 3 read_view into
-// a pre-allocated view == read_image and writes nothing outside it, 4 file name == FILE*, 8 std::istream == FILE*, 9 scanline reader row after skipped rows == image row, 5 read_image_info == dimensions of read_image,
+// a pre-allocated view == read_image and writes nothing outside it, 4 file name == FILE*, 8 std::istream == FILE*, 9 scanline reader row after skipped rows == image row, 10 read_image into any_image == read_image, 5 read_image_info == dimensions of read_image,
 // 6 destination view smaller than the region -> exception and destination untouched), PIX (native pixel type), CPIX (conversion target).
 // Run-time-constant shape: vp_param(0) = file length, 1..11 = the format's header fields (io.hpp), 12,13 = image width,height,
 // 14..17 = sub-rectangle x0,y0,dx,dy.  Symbolic: pixel data and all non-structural header bytes, probed coordinates.
 #include "../io/io.hpp"
 #include <istream>
+#include <boost/gil/extension/dynamic_image/any_image.hpp>
 #if FORMAT == 1
 #include <boost/gil/extension/io/bmp.hpp>
 using tag_t = gil::bmp_tag;
@@ -119,6 +120,21 @@ extern "C" void h_agree(void) {
         // scanlines are delivered in the file's native pixel type (SPIX: bgr8 for 24-bit BMP / TARGA); pixels compare by colour
         SPIX const* px = reinterpret_cast<SPIX const*>(&row[0]);
         vp_assert(px[x] == gil::view(R)(x, yy), "agree.scanline_row_after_skip_equals_image_row");
+    }
+#elif MODE == 10
+    // reading into a run-time typed image: the reader selects the alternative of the file's native pixel type and fills it with the same pixels
+    {
+        using any_t = gil::any_image<gil::gray8_image_t, gil::rgb8_image_t, gil::rgba8_image_t>;
+        any_t A;
+        { FILE* fp = (FILE*)vp_fopen_read(); gil::read_image(fp, A, tag_t()); }
+        vp_assert(A.dimensions() == R.dimensions(), "agree.any_image_dimensions");
+        using nat_t = gil::image<pix_t, false, std::allocator<unsigned char>>;
+        nat_t const* I = boost::variant2::get_if<nat_t>(&A);
+        vp_assert(I != nullptr, "agree.any_image_holds_native_type");
+        if (I) {
+            vp_assume(x < W && y < H);
+            vp_assert(gil::const_view(*I)(x, y) == gil::view(R)(x, y), "agree.any_image_pixels");
+        }
     }
 #elif MODE == 6
     img_t D(W, H);
